@@ -34,6 +34,7 @@ sub!(route, "route.rs");
 sub!(c02, "c02.rs");
 sub!(c15, "c15.rs");
 sub!(c17, "c17.rs");
+sub!(c06, "c06.rs");
 
 pub async fn main() -> Result<(), easy_error::Terminator> {
     let args: Vec<String> = std::env::args().collect();
@@ -55,6 +56,7 @@ pub async fn main() -> Result<(), easy_error::Terminator> {
         "c02" => c02::run(&mut out).await,
         "c15" => c15::run(&mut out).await,
         "c17" => c17::run(&mut out).await,
+        "c06" => c06::run(&mut out).await,
         _ => {
             eprintln!("unknown mode {}", mode);
             std::process::exit(2);
